@@ -1,38 +1,48 @@
 #!/bin/bash
 # selftest.sh: (1) every registered check is silent (exit 0) on /repo as it is; (2) every variant under
 # /verif/mutants (own, one seeded construct each) and every confirmed change under /verif/seeded that is
-# recorded as detected is still reported by the check named for it. Scratch worktrees live under /tmp and
-# are removed. Not part of quick/thorough (it must not touch /repo).
+# recorded as detected is still reported by the check named for it; (3) every behaviour-preserving change
+# under /verif/neutral leaves every check silent. Scratch worktrees live under /tmp and are removed. Not
+# part of quick/thorough (it must not touch /repo). JOBS patches are tried at a time (default 8).
 cd /verif
-fail=0
+J=${JOBS:-8}
+OUT=$(mktemp -d /tmp/selftest-out.XXXXXX)
+main() {
 for id in $(./bin/bmverif list); do
-  (ulimit -v 30000000; ./bin/bmverif check $id >/tmp/selftest.$id.out 2>&1); rc=$?
-  if [ $rc -ne 0 ] || grep -q "^VIOLATION" /tmp/selftest.$id.out; then echo "CLEAN-TREE FAIL $id (exit $rc)"; fail=1; else echo "clean  $id  $(grep ^summary /tmp/selftest.$id.out | cut -d' ' -f4-)"; fi
-  rm -f /tmp/selftest.$id.out
+  (ulimit -v 30000000; ./bin/bmverif check $id >$OUT/clean.$id.out 2>&1); rc=$?
+  if [ $rc -ne 0 ] || grep -q "^VIOLATION" $OUT/clean.$id.out; then echo "CLEAN-TREE FAIL $id (exit $rc)"; else echo "clean  $id  $(grep ^summary $OUT/clean.$id.out | cut -d' ' -f4-)"; fi
 done
-for m in mutants/*.diff; do
-  n=$(basename $m .diff); id=${n%%-*}
-  if MAXLINES=1 scripts/try_patch.sh $m $id >/tmp/selftest.m.out 2>&1; then echo "caught $n by $id: $(grep -m1 VIOLATED /tmp/selftest.m.out | cut -c1-110)"; else echo "MISSED $n (expected $id)"; fail=1; fi
-done
-for d in seeded/*/; do
-  n=$(basename $d); det=$(python3 -c "import json;print(json.load(open('$d/meta.json')).get('detected_by',''))")
+one_mutant() {
+  m=$1; n=$(basename $m .diff); id=${n%%-*}
+  if MAXLINES=1 scripts/try_patch.sh $m $id >$OUT/m.$n.out 2>&1; then echo "caught $n by $id: $(grep -m1 VIOLATED $OUT/m.$n.out | cut -c1-110)"; else echo "MISSED $n (expected $id)"; fi
+}
+one_seed() {
+  d=$1; n=$(basename $d); det=$(python3 -c "import json;print(json.load(open('$d/meta.json')).get('detected_by',''))")
   case "$det" in
-    NOT\ DETECTED*|see\ *) echo "seed   $n: recorded as not detected ($(echo $det | cut -c1-70)...)"; continue;;
+    NOT\ DETECTED*|see\ *) echo "seed   $n: recorded as not detected ($(echo $det | cut -c1-70)...)"; return;;
   esac
   ids=$(echo "$det" | grep -oE '\bC[0-9]{2}\b' | sort -u | tr '\n' ' ')
   ok=1
   for id in $ids; do
-    if ! MAXLINES=1 scripts/try_patch.sh $d/patch.diff $id >/tmp/selftest.m.out 2>&1; then ok=0; echo "MISSED seed $n by $id"; fail=1; fi
+    if ! MAXLINES=1 scripts/try_patch.sh $d/patch.diff $id >$OUT/s.$n.$id.out 2>&1; then ok=0; echo "MISSED seed $n by $id"; fi
   done
   [ $ok -eq 1 ] && echo "caught seed $n by $ids"
-done
-# (3) behaviour-preserving changes (neutral/*.diff: refactors written by independent sub-agents and neutral
-# twins of seeded changes) must leave EVERY check silent. Skipped with NEUTRAL=0.
+}
+one_neutral() {
+  d=$1; n=$(basename $d)
+  if MAXLINES=2 scripts/try_refactor.sh $d >$OUT/n.$n.out 2>&1; then echo "silent $n"; else echo "FALSE ALARM on $n"; grep -E "^(ALARM|VIOLATED|UNDECIDED|FATAL|PATCH)" $OUT/n.$n.out | cut -c1-200; fi
+}
+export -f one_mutant one_seed one_neutral
+export OUT
+ls mutants/*.diff | xargs -P $J -I{} bash -c 'one_mutant {}'
+ls -d seeded/*/ | xargs -P $J -I{} bash -c 'one_seed {}'
+# behaviour-preserving changes (refactors written by independent sub-agents and neutral twins of seeded
+# changes) must leave EVERY check silent. Skipped with NEUTRAL=0.
 if [ "${NEUTRAL:-1}" = "1" ]; then
-  for d in neutral/*.diff; do
-    if MAXLINES=2 scripts/try_refactor.sh $d >/tmp/selftest.m.out 2>&1; then echo "silent $(basename $d)"; else echo "FALSE ALARM on $(basename $d)"; grep -E "^(ALARM|VIOLATED|UNDECIDED|FATAL|PATCH)" /tmp/selftest.m.out | cut -c1-200; fail=1; fi
-  done
+  ls neutral/*.diff | xargs -P $J -I{} bash -c 'one_neutral {}'
 fi
-rm -f /tmp/selftest.m.out
-[ $fail -eq 0 ] && echo "SELFTEST OK" || echo "SELFTEST FAILED"
-exit $fail
+}
+main 2>&1 | tee $OUT/log
+if grep -qE "^(CLEAN-TREE FAIL|MISSED|FALSE ALARM)" $OUT/log; then echo "SELFTEST FAILED"; rc=1; else echo "SELFTEST OK"; rc=0; fi
+rm -rf $OUT
+exit $rc
